@@ -203,8 +203,8 @@ class LGANM:
         # Must copy as they can be changed by interventions, but we
         # still want to keep the observational SEM
         W = self.W.copy()
-        variances = self.variances.copy()
-        means = self.means.copy()
+        variances = self.variances.astype(float)
+        means = self.means.astype(float)
 
         # Perform shift interventions
         if shift_interventions:
